@@ -53,7 +53,8 @@ OPEN_STATEMENTS = [
     '(i/2) sum A f f equal M, Delta/2, -Delta*/2 and the constant shift); the CAR step from coefficients to operators is '
     'checked by spec.eq on every generated input, not proved.',
     'antisymmetric_canonical_form: final shape [[0,D],[-D,0]], D >= 0 ascending for every aligned Schur form: not proved '
-    '(oracle only).  Proved: all four passes reindex the Schur pair by one permutation (so A = R^T C R is invariant); the '
+    '(oracle only; requested in the proof-growth round, not reached: it needs the explicit permutation composed by pass 2 for '
+    'general n).  Proved: all four passes reindex the Schur pair by one permutation (so A = R^T C R is invariant); the '
     'summation step from the entry-level reindexing to the matrix identity O C O^T is argued in the docstring, not formalised.',
     'gaussian state / Slater determinant correctness (state = b+_1..b+_eta|vac> up to phase): oracle only; FALSE on the real '
     'code for explicit occupations of a non-particle-conserving Hamiltonian when the annihilation block of the Bogoliubov '
